@@ -1,6 +1,7 @@
 //! hmc: handle model checker (engines A, A', A'' of DESIGN.md).
 mod explore;
 mod key;
+mod recycle;
 mod world;
 
 use explore::*;
@@ -82,6 +83,64 @@ fn main() {
             let mut e = Explorer::new(cfg, "hmc", &config);
             e.run();
             let mut rep = e.finish_report();
+            if oracle::machinery_error() {
+                rep.machinery_error = Some("oracle allocator table overflow".into());
+            }
+            rep.extra.push(("wall_s".into(), format!("{:.3}", t0.elapsed().as_secs_f64())));
+            rep.print();
+        }
+        "recycle" => {
+            // hmc recycle --set small|t1k|t2k|t64k --k 0 [--roundtrip] [--unsplit] [--periodic 3]
+            let set = arg("--set", "small");
+            let k: usize = arg("--k", "0").parse().unwrap();
+            let base = |name: &str, init_cap: usize, ns: Vec<usize>| recycle::Params {
+                quantum: if init_cap >= 1024 { 100 } else { 1 },
+                name: format!("{}:cap{}:k{}{}{}", name, init_cap, k, if flag("--roundtrip") { ":roundtrip" } else { "" }, if flag("--unsplit") { ":unsplit" } else { "" }),
+                init_cap,
+                max_leftover: *ns.iter().max().unwrap(),
+                ns,
+                k,
+                roundtrip: flag("--roundtrip"),
+                unsplit: flag("--unsplit"),
+                parity_odd: parity == "odd",
+                max_states: arg("--max-states", "1000000").parse().unwrap(),
+            };
+            let params: Vec<recycle::Params> = match set.as_str() {
+                "small" => [0usize, 8, 16].iter().map(|&c| base("small", c, vec![1, 3, 7])).collect(),
+                "t1k" => vec![base("t1k", 1024, vec![100, 1000, 5000])],
+                "t2k" => vec![base("t2k", 2048, vec![100, 1000, 5000])],
+                _ => vec![base("t64k", 65536, vec![100, 1000, 5000])],
+            };
+            let mut rep = oracle::report::Report::new("recycle", "C18", &format!("{}/{}/{}/k={}", profile, parity, set, k));
+            let period: usize = arg("--periodic", "0").parse().unwrap();
+            let mut words_total = 0u64;
+            for p in &params {
+                // warm-up
+                {
+                    let mut w = p.clone();
+                    w.max_states = 30;
+                    let mut r = oracle::report::Report::new("recycle", "C18", "warmup");
+                    let _ = recycle::explore(&w, &mut r);
+                }
+                let o = recycle::explore(p, &mut rep);
+                rep.states += o.states;
+                rep.transitions += o.transitions;
+                rep.traces += o.transitions;
+                rep.evaluations += o.transitions;
+                rep.distinct_nontrivial += o.states;
+                if !o.closed {
+                    rep.exhaustive = false;
+                    rep.caps.push(format!("{}: state graph not closed within {} states (BFS depth {})", p.name, p.max_states, o.depth));
+                }
+                rep.sample(format!("{}: {} states, {} transitions, closed={} at BFS depth {}, max live bytes {}, allocating edges {} (on cycles: {})", p.name, o.states, o.transitions, o.closed, o.depth, o.max_live, o.alloc_edges, o.alloc_edges_on_cycles));
+                if period > 0 {
+                    let (words, steps) = recycle::periodic(p, period, arg("--rounds", "100").parse().unwrap(), &mut rep);
+                    words_total += words;
+                    rep.evaluations += steps;
+                    rep.traces += words;
+                }
+            }
+            rep.extra_num("periodic_schedules", words_total);
             if oracle::machinery_error() {
                 rep.machinery_error = Some("oracle allocator table overflow".into());
             }
